@@ -12,7 +12,7 @@ from ..bounds2 import Bounder, Cap
 LIMIT = 65536        # TAR_MAX_PATH_LEN / _SYMLINK_LEN / _PAX_LEN / _SPARSE_ENT (include/tar/format.h)
 
 EXCEPTIONS = {
-    ("precache", "memmove", 0):
+    ("field:istream_xfrm_t.uncompressed", "memmove"):
         "compaction inside the object's own fixed buffer: buffer_offset < buffer_used <= BUFSZ is the stream's invariant "
         "(buffer_used is only ever set from process_data's out_off, which is bounded by the BUFSZ - out_off it was given)",
 }
